@@ -9,6 +9,7 @@ import (
 	"strings"
 	"time"
 	_ "time/tzdata" // zone data for ScalarCase.TZ, independent of the machine
+	"unsafe"
 
 	"gitee.com/xuesongtao/protoc-go-valid/valid"
 
@@ -28,12 +29,15 @@ type ScalarCase struct {
 	RePats  map[string]string `json:"repats,omitempty"`
 	// TZ: the process's local time zone while the call runs (time.Local; "" = unchanged, UTC).
 	// Only set by single-threaded checks.
-	TZ string `json:"tz,omitempty"`
-	Others  [][2]string       `json:"others,omitempty"` // url: other parameters (name, value); map: other entries
-	Pos     int               `json:"pos,omitempty"`    // url: position of our parameter among the others
+	TZ     string      `json:"tz,omitempty"`
+	Others [][2]string `json:"others,omitempty"` // url: other parameters (name, value); map: other entries
+	Pos    int         `json:"pos,omitempty"`    // url: position of our parameter among the others
 	// Again: url: values of further occurrences of OUR parameter, placed right before ours
 	// (?k=&k=abc): every occurrence is judged on its own
 	Again []string `json:"again,omitempty"`
+	// Lead: tag / rm carriers: fields declared BEFORE ours in the carrier struct, none with a rule:
+	// "time" (a time.Time), "unexported", "plain" (an exported string), "all" (the three)
+	Lead string `json:"lead,omitempty"`
 	// NoModel: the rule text is malformed (an unbalanced quote): what it means is not documented, so
 	// only the metamorphic oracles apply (same call alone / in a fresh state / concurrently)
 	NoModel bool `json:"nomodel,omitempty"`
@@ -135,6 +139,37 @@ func (c *ScalarCase) path() string {
 	return scalarKey
 }
 
+// leadFields: the rule-less fields declared before ours in the carrier struct.
+func (c *ScalarCase) leadFields() []desc.F {
+	var fs []desc.F
+	if c.nested() {
+		return nil
+	}
+	if c.Lead == "time" || c.Lead == "all" {
+		fs = append(fs, desc.F{Name: "T0", T: desc.Scalar("time")})
+	}
+	if c.Lead == "unexported" || c.Lead == "all" {
+		fs = append(fs, desc.F{Name: "u0", T: desc.Scalar("int")})
+	}
+	if c.Lead == "plain" || c.Lead == "all" {
+		fs = append(fs, desc.F{Name: "Z0", T: desc.Scalar("string")})
+	}
+	return fs
+}
+
+// fillLead gives the leading fields non-zero values (a rule applied to the wrong slot would see them).
+func (c *ScalarCase) fillLead(st reflect.Value) {
+	if f := st.FieldByName("T0"); f.IsValid() {
+		f.Set(reflect.ValueOf(time.Unix(1700000000, 0).UTC()))
+	}
+	if f := st.FieldByName("Z0"); f.IsValid() {
+		f.SetString("lead value 测试")
+	}
+	if f := st.FieldByName("u0"); f.IsValid() {
+		reflect.NewAt(f.Type(), unsafe.Pointer(f.UnsafeAddr())).Elem().SetInt(77)
+	}
+}
+
 // value materialises the Go value.
 func (c *ScalarCase) value() reflect.Value { return desc.Build(desc.Type(c.T), c.Val) }
 
@@ -160,9 +195,10 @@ func (c *ScalarCase) prepare() func() error {
 		}
 		return func() error { return valid.Var(src, rs...) }
 	case "tag":
-		st := desc.T{K: "struct", Fields: []desc.F{{Name: "K", T: c.T, Tags: map[string]string{"valid": rules}}}}
+		st := desc.T{K: "struct", Fields: append(c.leadFields(), desc.F{Name: "K", T: c.T, Tags: map[string]string{"valid": rules}})}
 		sv := reflect.New(desc.Type(st))
-		sv.Elem().Field(0).Set(v)
+		c.fillLead(sv.Elem())
+		sv.Elem().FieldByName("K").Set(v)
 		if c.nested() {
 			for i := 0; i < c.Nest; i++ {
 				st = desc.T{K: "struct", Fields: []desc.F{{Name: "In", T: desc.Ptr(st), Tags: map[string]string{"valid": "required"}}}}
@@ -185,7 +221,8 @@ func (c *ScalarCase) prepare() func() error {
 		if c.Decoy != "" {
 			decoy := c.Decoy
 			sv2 := reflect.New(sv.Type().Elem())
-			sv2.Elem().Field(0).Set(v)
+			c.fillLead(sv2.Elem())
+			sv2.Elem().FieldByName("K").Set(v)
 			src2 := sv2.Interface()
 			return func() error {
 				_ = valid.StructForFn(src2, valid.RM{"K": decoy})
@@ -194,9 +231,10 @@ func (c *ScalarCase) prepare() func() error {
 		}
 		return func() error { return valid.Struct(src) }
 	case "rm":
-		st := desc.T{K: "struct", Fields: []desc.F{{Name: "K", T: c.T}}}
+		st := desc.T{K: "struct", Fields: append(c.leadFields(), desc.F{Name: "K", T: c.T})}
 		sv := reflect.New(desc.Type(st))
-		sv.Elem().Field(0).Set(v)
+		c.fillLead(sv.Elem())
+		sv.Elem().FieldByName("K").Set(v)
 		src := c.viaPtr(sv)
 		rs := append([]string(nil), c.Rules...)
 		if len(c.CallFns) > 0 {
